@@ -429,6 +429,22 @@ func runC19(r *core.Run) {
 			add(map[string]interface{}{"kind": "nofatal", "class": cl[i]}, xs[i]+" -> "+er[i], "internal-failure:external-command:"+failKind(er[i]))
 		}
 		r.Coverage["external_command_statements"] = len(xs)
+		// reports with a title that holds a name: names shorter and longer than the screen (75 columns without a terminal)
+		{
+			var ls []string
+			lfiles := map[string]string{}
+			for _, name := range []string{strings.Repeat("n", 20), strings.Repeat("n", 55), strings.Repeat("n", 66), strings.Repeat("n", 67), strings.Repeat("n", 90), strings.Repeat("漢", 34), strings.Repeat("漢", 60), strings.Repeat("n", 200)} {
+				lfiles[name+".csv"] = "a,b\n1,2\n"
+				ls = append(ls, "SHOW FIELDS FROM `"+name+".csv`;", "ALTER TABLE `"+name+".csv` SET DELIMITER TO ';'; ROLLBACK;", "SYNTAX "+name+";", "SELECT * FROM `"+name+".csv`;",
+					"CREATE TABLE `x"+name+".csv` (a); ROLLBACK;", "SHOW TABLES;", "UPDATE `"+name+".csv` SET a = 2; SHOW TABLES; ROLLBACK;")
+			}
+			cl, er = isolatedExec(r, ls, lfiles)
+			for i := range ls {
+				r.Distinct("long:" + ls[i])
+				add(map[string]interface{}{"kind": "nofatal", "class": cl[i]}, trunc(ls[i])+" -> "+er[i], "internal-failure:long-name:"+strings.Fields(ls[i])[0]+":"+failKind(er[i]))
+			}
+			r.Coverage["long_name_statements"] = len(ls)
+		}
 	}
 
 	// ---- (c) boundary arguments of every built-in function and numeric clause ----
